@@ -209,6 +209,8 @@ func (r *Roles) Classifier(m Mode) func(ci *eng.CallInfo) *eng.Disposition {
 				return &eng.Disposition{Act: eng.ActEvent, Class: "time.After"}
 			case "time.NewTimer":
 				return &eng.Disposition{Act: eng.ActEvent, Class: "time.NewTimer"}
+			case "(*time.Timer).Reset":
+				return &eng.Disposition{Act: eng.ActEvent, Class: "time.Reset"}
 			case "time.Sleep":
 				return &eng.Disposition{Act: eng.ActEvent, Class: "time.Sleep"}
 			case "time.Tick", "time.NewTicker", "time.AfterFunc":
